@@ -8,6 +8,8 @@ import M3d.Lemmas.TriWinding
 import M3d.Lemmas.TriProfileMfd
 import M3d.Lemmas.TriPlace
 import M3d.Lemmas.TriFace
+import M3d.Lemmas.TriEar
+import M3d.Lemmas.TriOff
 import M3d.Lemmas.Surface
 /-!
 # C14 — triangulation covers the polygon exactly
@@ -334,6 +336,49 @@ theorem ear_clip_orientation (strictDiag : Bool) (l : List (P2 K)) (v : Nat)
     have := this.2 (not_lt.1 hn)
     rw [hc] at this; cases this
 
+/-- **`ear_test_rejects_interior_vertex`** — the point-in-ear test has NO lower tolerance.
+`isVertexEar` (both versions of the diagonal test) rejects the corner `v` of the polygon `l` as soon as
+some OTHER vertex `l[i]` (not `v` and not one of its two neighbours) lies strictly inside the triangle
+`(p1, p2, p3) = (l[v−1], l[v], l[v+1])` that cutting the ear would emit — strictly on the inner side of
+all three edges, **however close to one of them**: the statement is in terms of the signs of the three
+orientation determinants only, there is no bound on the barycentric coordinates
+`X = orient p2 p3 p / O`, `Y = orient p1 p2 p / O` (`blocks_eq_orient`).  The repaired test
+(`strictDiag = false`) also rejects when the vertex lies ON the open diagonal `p3p1`.  Conversely an
+accepted ear contains no other vertex of the polygon strictly inside or on its open diagonal.
+(An ear triangle with a polygon vertex strictly inside sticks out of the polygon next to that vertex,
+so a version of the test that ignores vertices within some ε of the two polygon sides of the ear
+returns triangles that leave the region; the `nearside` family of the harness has vertices at
+barycentric distances 1e-12 … 1e-8 from a side.) -/
+theorem ear_test_rejects_interior_vertex (l : List (P2 K)) (v i : Nat) (hi : i < l.length)
+    (h1 : i ≠ (v + l.length - 1) % l.length) (h2 : i ≠ v) (h3 : i ≠ (v + 1) % l.length) :
+    (StrictlyInside (prevAt l v) (curAt l v) (nextAt l v) (curAt l i) →
+      ∀ sd, isVertexEar sd l v = false) ∧
+    (OnOpenDiagonal (prevAt l v) (curAt l v) (nextAt l v) (curAt l i) → isVertexEar false l v = false) ∧
+    (isVertexEar false l v = true → orient (prevAt l v) (curAt l v) (nextAt l v) ≠ 0 →
+      ¬ StrictlyInside (prevAt l v) (curAt l v) (nextAt l v) (curAt l i) ∧
+      ¬ OnOpenDiagonal (prevAt l v) (curAt l v) (nextAt l v) (curAt l i)) := by
+  refine ⟨fun h sd => ?_, fun h => ?_, fun h hO => ?_⟩
+  · exact isVertexEar_false_of_blocks sd l v i hi h1 h2 h3 (blocks_of_strictlyInside sd _ _ _ _ h)
+  · exact isVertexEar_false_of_blocks false l v i hi h1 h2 h3 (blocks_of_onOpenDiagonal _ _ _ _ h)
+  · have hb := not_blocks_of_isVertexEar false l v i hi h1 h2 h3 h
+    constructor
+    · intro hin
+      rw [blocks_of_strictlyInside false _ _ _ _ hin] at hb; cases hb
+    · intro hd
+      rw [blocks_of_onOpenDiagonal _ _ _ _ hd] at hb; cases hb
+
+/-- Non-vacuity at two scales at once: the corner `(0,0)` of the counter-clockwise polygon
+`(2^30,0) (0,2^30) (0,0) (2^10,0) (2^9,1) (2^11,0)` has the notch tip `(2^9, 1)` strictly inside its
+ear `(0,2^30) (0,0) (2^10,0)` at the barycentric distance `X = 2^-30 ≈ 9.3e-10` from the side
+`(0,0)(2^10,0)`; the ear is rejected, and the model of `Triangulate` returns four triangles. -/
+example :
+    let l : List (P2 Rat) := [⟨1073741824, 0⟩, ⟨0, 1073741824⟩, ⟨0, 0⟩, ⟨1024, 0⟩, ⟨512, 1⟩, ⟨2048, 0⟩]
+    StrictlyInside (prevAt l 2) (curAt l 2) (nextAt l 2) (curAt l 4) ∧
+    orient (curAt l 2) (nextAt l 2) (curAt l 4) / orient (prevAt l 2) (curAt l 2) (nextAt l 2) = 1 / 1073741824 ∧
+    isVertexEar false l 2 = false ∧ (triangulate false 7 l).map List.length = some 4 := by
+  refine ⟨Or.inl ⟨by decide +kernel, by decide +kernel, by decide +kernel⟩, by decide +kernel,
+    by decide +kernel, by decide +kernel⟩
+
 /-- Regression example for the repaired defect: in the polygon
 `(0,-2) (0,0) (7,2) (7,-6) (4,-6) (4,-3) (3,-3) (3,-2)` (after the first two ears have been cut:
 `(3,-2) (7,2) (7,-6) (4,-6) (4,-3) (3,-3)`) the vertex `(4,-3)` lies ON the diagonal of the
@@ -557,6 +602,73 @@ example :
     faceBasisIdx poly = some 3 ∧
     (faceChart poly).map (fun ch => (triangulate false 10 ch).map List.length) = some (some 2) ∧
     triangulate false 10 (faceChartAt poly 2) = none := by
+  decide +kernel
+
+/-! ## `ReadOFF`: every face of the file -/
+
+/-- **`readOFF_every_face`.**  The face loop of `model3d.ReadOFF` (`readOffFaces`: read a face,
+triangulate it with `triangulateFileFace`, append; an error aborts) returns, for a file with ANY number
+of faces — there is no bound in the statement, in particular none related to the bounded pre-allocation
+of the result slice — the triangulations of ALL its faces in file order: the result is the concatenation
+of one list per face, the `i`-th of which is what the per-face routine returns for face `i`; its length
+is the sum of the per-face counts; and the loop fails exactly when some face fails.  With the per-face
+certificate (`triangulation_certificate_sound` in the face's chart) this is what the `offmesh` kind
+demands of the real output: every face of the file is covered. -/
+theorem readOFF_every_face {F T : Type} (tri : F → Option (List T)) (faces : List F) :
+    (∀ out, readOffFaces tri faces = some out ↔
+      ∃ tss : List (List T), List.Forall₂ (fun f ts => tri f = some ts) faces tss ∧ out = tss.flatten) ∧
+    (∀ out tss, readOffFaces tri faces = some out →
+      List.Forall₂ (fun f ts => tri f = some ts) faces tss →
+        tss.length = faces.length ∧ out.length = (tss.map List.length).sum) ∧
+    (readOffFaces tri faces = none ↔ ∃ f ∈ faces, tri f = none) := by
+  refine ⟨readOffFaces_eq_some tri faces, fun out tss h h2 => ⟨h2.length_eq.symm, ?_⟩,
+    readOffFaces_eq_none tri faces⟩
+  obtain ⟨tss', h3, rfl⟩ := (readOffFaces_eq_some tri faces out).1 h
+  have : tss' = tss := by
+    clear h
+    induction h3 generalizing tss with
+    | nil => cases h2; rfl
+    | cons ha _ ih =>
+      cases h2 with
+      | cons hb h2' =>
+        rw [ha] at hb
+        rw [Option.some.inj hb, ih _ h2']
+  rw [this, List.length_flatten]
+
+/-- Non-vacuity beyond every pre-allocation bound: a file of `65537 = 2^16 + 1` quadrilateral faces,
+each triangulated into two triangles, yields `131074` triangles (and `n` faces yield `2n` for every `n`). -/
+example (tri : Nat → Option (List Nat)) (h : tri 4 = some [0, 1]) :
+    (readOffFaces tri (List.replicate 65537 4)).map List.length = some 131074 ∧
+    ∀ n, (readOffFaces tri (List.replicate n 4)).map List.length = some (2 * n) := by
+  have key : ∀ n, (readOffFaces tri (List.replicate n 4)).map List.length = some (2 * n) := by
+    intro n
+    rw [readOffFaces_replicate tri 4 [0, 1] h n]
+    simp [List.length_flatten, Nat.mul_comm]
+  exact ⟨key 65537, key⟩
+
+/-- **`off_copy_cert_transfer`.**  A translation of space acts as a translation in each of the three
+drop-a-coordinate charts in which the driver evaluates the certificate of a planar face, and the
+certificate checker is translation invariant: for the corners `c3` of a face, the triangles `tris`
+are a valid certificate for the face translated by ANY vector `t` (in particular `r·T`, copy number `r`
+of a tile: `copyPt`) iff they are one for the face itself.  This is why the `offmesh` driver evaluates a
+block of identical copies once. -/
+theorem off_copy_cert_transfer (t : P3 K) (c3 : Nat → P3 K) (nv : Nat) (cw : Bool) (bnd : List Edge)
+    (tris : List Tri) :
+    certOk (fun i => chartXY (translate3 t (c3 i))) nv cw bnd tris = certOk (fun i => chartXY (c3 i)) nv cw bnd tris ∧
+    certOk (fun i => chartYZ (translate3 t (c3 i))) nv cw bnd tris = certOk (fun i => chartYZ (c3 i)) nv cw bnd tris ∧
+    certOk (fun i => chartZX (translate3 t (c3 i))) nv cw bnd tris = certOk (fun i => chartZX (c3 i)) nv cw bnd tris ∧
+    ∀ (r : K) (T p : P3 K), copyPt r T p = translate3 ⟨r * T.x, r * T.y, r * T.z⟩ p := by
+  refine ⟨?_, ?_, ?_, fun r T p => rfl⟩
+  · simp only [chartXY_translate3]; exact certOk_translate _ _ _ nv cw bnd tris
+  · simp only [chartYZ_translate3]; exact certOk_translate _ _ _ nv cw bnd tris
+  · simp only [chartZX_translate3]; exact certOk_translate _ _ _ nv cw bnd tris
+
+/-- Non-vacuity: the unit square in the plane `z = 5`, and translated by `(10⁶, −3, 7)·1000`. -/
+example :
+    let c3 : Nat → P3 Rat := fun i => ([⟨0, 0, 5⟩, ⟨0, 1, 5⟩, ⟨1, 1, 5⟩, ⟨1, 0, 5⟩] : List (P3 Rat)).getD i ⟨0, 0, 0⟩
+    certOk (fun i => chartXY (c3 i)) 4 true (loopEdges [4]) [(0, 1, 2), (0, 2, 3)] = true ∧
+    certOk (fun i => chartXY (copyPt 1000 ⟨1000000, -3, 7⟩ (c3 i))) 4 true (loopEdges [4]) [(0, 1, 2), (0, 2, 3)] = true ∧
+    certOk (fun i => chartXY (copyPt 1000 ⟨1000000, -3, 7⟩ (c3 i))) 4 true (loopEdges [4]) [(0, 1, 2)] = false := by
   decide +kernel
 
 /-! ## `ProfileMesh` -/
